@@ -13,13 +13,16 @@ use crate::rng::Rng;
 use crate::sexp::Sx;
 
 pub struct Plan {
+  /// generated packages whose emitted modules are judged
   pub n_gen: u64,
+  /// one-module packages of public function-likes: model of the transform vs the real transform
+  pub n_model: u64,
 }
 
 pub fn plan(tier: Tier) -> Plan {
   match tier {
-    Tier::Quick => Plan { n_gen: 1500 },
-    Tier::Thorough => Plan { n_gen: 30000 },
+    Tier::Quick => Plan { n_gen: 4000, n_model: 2500 },
+    Tier::Thorough => Plan { n_gen: 60000, n_model: 40000 },
   }
 }
 
@@ -151,9 +154,181 @@ fn gen_case(seed: u64, k: u64, corpus: &[SpecCase]) -> Case {
   }
 }
 
+fn diag_code(c: &str) -> u64 {
+  match c {
+    "missing-explicit-type" => 1,
+    "missing-explicit-return-type" => 2,
+    "unsupported-destructuring" => 3,
+    _ => 99,
+  }
+}
+
+fn one_module_world(text: &str) -> FcWorld {
+  workspace_world(&[PkgSrc {
+    name: "@scope/a".into(),
+    version: "1.0.0".into(),
+    exports: vec![(".".into(), "./mod.ts".into())],
+    files: vec![("mod.ts".into(), text.to_string())],
+  }])
+}
+
+fn parse_ts(text: &str) -> Result<deno_ast::ParsedSource, String> {
+  deno_ast::parse_program(deno_ast::ParseParams {
+    specifier: deno_ast::ModuleSpecifier::parse("file:///scope_a/mod.ts").unwrap(),
+    text: text.into(),
+    media_type: deno_ast::MediaType::TypeScript,
+    capture_tokens: false,
+    scope_analysis: false,
+    maybe_syntax: None,
+  })
+  .map_err(|e| e.to_string())
+}
+
+/// Model stream: the Coq model of transform_fn / transform_arrow / handle_param_pat / the
+/// constructor part of transform_class_member is run on the source summary of every public
+/// function-like; the real transform (collect mode: workspace fast check) supplies, per unit, the
+/// diagnostics it raised or - from a run without the diagnosed declarations - the emitted shape.
+fn model_case(seed: u64, k: u64) -> Case {
+  let mut rng = Rng::for_case(seed, k);
+  let (text, feats) = pkggen::gen_fn_package(&mut rng);
+  let mut dist: Vec<(String, u64)> = feats.iter().map(|(f, n)| (format!("model-gen:{}", f), *n)).collect();
+  dist.push(("model-stream".into(), 1));
+  let mut meta = serde_json::json!({"model_stream": true, "source": text});
+  let mut direct = vec![];
+  let parsed = match parse_ts(&text) {
+    Ok(p) => p,
+    Err(e) => {
+      dist.push(("model-stream:source-does-not-parse".into(), 1));
+      meta["parse_error"] = serde_json::json!(e);
+      return Case { input: Sx::L(vec![Sx::A(1), Sx::L(vec![])]), obs: Sx::L(vec![]), meta, nontrivial: false, dist, direct_violations: direct };
+    }
+  };
+  let units = srcsum::source_units(&parsed);
+  let run = run_world(&one_module_world(&text));
+  let Some(module) = run.modules.iter().find(|m| m.specifier.ends_with("/mod.ts") && m.specifier.contains("scope_a")) else {
+    dist.push(("model-stream:no-module".into(), 1));
+    return Case { input: Sx::L(vec![Sx::A(1), Sx::L(vec![])]), obs: Sx::L(vec![]), meta, nontrivial: false, dist, direct_violations: direct };
+  };
+  // diagnostics per unit (innermost unit containing the diagnostic's start)
+  let mut unit_codes: Vec<Vec<u64>> = vec![vec![]; units.len()];
+  let mut dirty_items: Vec<(usize, usize)> = vec![];
+  let mut stray = 0;
+  if let FcOut::Diagnostics(ds) = &module.out {
+    for d in ds {
+      let Some((st, _)) = d.range else {
+        stray += 1;
+        continue;
+      };
+      let mut best: Option<usize> = None;
+      for (i, u) in units.iter().enumerate() {
+        if u.range.0 <= st && st < u.range.1 {
+          if best.map(|b| units[b].range.1 - units[b].range.0 > u.range.1 - u.range.0).unwrap_or(true) {
+            best = Some(i);
+          }
+        }
+      }
+      match best {
+        Some(i) => {
+          unit_codes[i].push(diag_code(&d.code));
+          dirty_items.push(units[i].item_range);
+        }
+        None => {
+          stray += 1;
+          // a diagnostic outside every unit: its whole top-level item is left out of the second run
+          dirty_items.push((st, st + 1));
+        }
+      }
+      dist.push((format!("model-stream:diagnostic:{}", d.code), 1));
+    }
+  }
+  if stray > 0 {
+    dist.push(("model-stream:diagnostics-outside-units".into(), stray));
+  }
+  // emitted text for the clean units
+  let any_diag = matches!(module.out, FcOut::Diagnostics(_));
+  let emitted_text: Option<String> = match &module.out {
+    FcOut::Emitted { text, .. } => Some(text.clone()),
+    FcOut::Diagnostics(_) => {
+      // second run without the top-level items that contain a diagnostic
+      let mut kept = String::new();
+      if let deno_ast::ProgramRef::Module(m) = parsed.program_ref() {
+        let start = parsed.text_info_lazy().range().start.as_byte_pos().0;
+        for item in &m.body {
+          use deno_ast::swc::common::Spanned;
+          let sp = item.span();
+          let (lo, hi) = ((sp.lo.0 - start) as usize, (sp.hi.0 - start) as usize);
+          let dirty = dirty_items.iter().any(|(a, b)| lo <= *a && *a < hi || (*a <= lo && lo < *b));
+          if !dirty {
+            kept.push_str(&text[lo..hi]);
+            kept.push('\n');
+          }
+        }
+      }
+      let run2 = run_world(&one_module_world(&kept));
+      match run2.modules.iter().find(|m| m.specifier.contains("scope_a")).map(|m| &m.out) {
+        Some(FcOut::Emitted { text, .. }) => Some(text.clone()),
+        Some(FcOut::Diagnostics(ds)) => {
+          dist.push(("model-stream:second-run-still-diagnosed".into(), 1));
+          meta["second_run_diagnostics"] = serde_json::json!(ds.iter().map(|d| d.code.clone()).collect::<Vec<_>>());
+          None
+        }
+        _ => None,
+      }
+    }
+    FcOut::Untouched => None,
+  };
+  let emitted_parsed = emitted_text.as_ref().and_then(|t| parse_ts(t).ok());
+  if emitted_text.is_some() && emitted_parsed.is_none() {
+    direct.push("emitted module of the model stream does not parse".to_string());
+  }
+  let mut inputs = vec![];
+  let mut obs = vec![];
+  let mut n_ok = 0u64;
+  let mut n_err = 0u64;
+  let mut int = sum::Interner::new();
+  for (i, u) in units.iter().enumerate() {
+    if !unit_codes[i].is_empty() {
+      inputs.push(u.input.clone());
+      obs.push(Sx::L(vec![Sx::A(1), Sx::atoms(unit_codes[i].iter().copied())]));
+      n_err += 1;
+      continue;
+    }
+    let item_dirty = any_diag && dirty_items.iter().any(|(a, _)| u.item_range.0 <= *a && *a < u.item_range.1);
+    if item_dirty {
+      dist.push(("model-stream:clean-unit-in-diagnosed-declaration (not observable)".into(), 1));
+      continue;
+    }
+    let Some(ep) = &emitted_parsed else { continue };
+    let mut s = sum::Summariser::new(&mut int);
+    match srcsum::emitted_unit_shape(ep, &u.path, &u.prop_names, &mut s) {
+      Some(shape) => {
+        inputs.push(u.input.clone());
+        obs.push(shape);
+        n_ok += 1;
+      }
+      None => {
+        direct.push(format!("unit {:?} has no diagnostic but is missing from the emitted module", u.path));
+      }
+    }
+  }
+  dist.push(("model-stream:units-with-diagnostics".into(), n_err));
+  dist.push(("model-stream:units-emitted".into(), n_ok));
+  meta["emitted"] = serde_json::json!(emitted_text);
+  meta["units"] = serde_json::json!(units.iter().enumerate().map(|(i, u)| serde_json::json!({"decl": u.path.decl, "member": u.path.member, "diagnostics": unit_codes[i]})).collect::<Vec<_>>());
+  Case {
+    input: Sx::L(vec![Sx::A(1), Sx::L(inputs)]),
+    obs: Sx::L(obs),
+    meta,
+    nontrivial: n_ok > 0 && n_err > 0,
+    dist,
+    direct_violations: direct,
+  }
+}
+
 pub fn run(cfg: &RunCfg) {
   let corpus = corpus();
   let p = plan(cfg.tier);
-  let n = corpus.len() as u64 + seed_packages().len() as u64 + p.n_gen;
-  run_cases(cfg, n, |seed, k| gen_case(seed, k, &corpus));
+  let n_judged = corpus.len() as u64 + seed_packages().len() as u64 + p.n_gen;
+  let n = n_judged + p.n_model;
+  run_cases(cfg, n, |seed, k| if k < n_judged { gen_case(seed, k, &corpus) } else { model_case(seed, k) });
 }
